@@ -187,6 +187,9 @@ func (c *Chain) AddBlockAt(ts uint64, txs ...*transaction.Transaction) *block.Bl
 
 // Compile compiles contracts/<name> of the repository under test (cached per process by neotest).
 func (c *Chain) Compile(name string) *neotest.Contract {
+	if UseEmbedded() {
+		return c.LoadEmbedded(name)
+	}
 	p := filepath.Join(Repo(), "contracts", name)
 	return neotest.CompileFile(c.T, c.Cmt.ScriptHash(), p, filepath.Join(p, "config.yml"))
 }
